@@ -504,7 +504,11 @@ pub fn check_big(c: &crate::gen::NetCase, obs: &mut Obs) -> Result<(), String> {
         obs.inner_evals += reqs.len() as u64;
         // oracle for a sample of the queries (first, last, around powers of two)
         let n = reqs.len();
+        if n == 0 {
+            return Ok(());
+        }
         let mut idx: Vec<usize> = vec![0, 1, n / 2, n - 1];
+        idx.retain(|k| *k < n);
         for m in [15usize, 31, 63, 64, 127, 128, 255, 256, 511, 512, 513] {
             if m < n {
                 idx.push(m);
